@@ -204,7 +204,7 @@ func C18(tier string) int {
 	if tier == "thorough" {
 		maxTx = 3
 	}
-	run.Rule = fmt.Sprintf("1..%d consecutive LMTP transactions on one client connection x 1..3 recipients each x every recipient in {refused at RCPT, accepted+ok, accepted+4xx, accepted+5xx} x {LMTPData with callback, Data without} x server backend {per-recipient statuses (set before/after the message is read), single result}; real client <-> real server in a synctest bubble (a client blocked on a reply that never comes is a runtime-detected deadlock). Distinct by construction; non-trivial = more than one transaction or a refusal. Oracle: callback exactly once per recipient accepted in THIS transaction, in order, with that recipient's own reply; Close returns after exactly those replies (a following NOOP is in step); without callback a refusal comes back from Close.", maxTx)
+	run.Rule = fmt.Sprintf("1..%d consecutive LMTP transactions on one client connection x 1..3 recipients each x every recipient in {refused at RCPT, accepted+ok, accepted+4xx, accepted+5xx} x {LMTPData with callback, Data without} x server backend {per-recipient statuses (set before/after the message is read), single result}; real client <-> real server in a synctest bubble (a client blocked on a reply that never comes is a runtime-detected deadlock). Distinct by construction; non-trivial = more than one transaction or a refusal. Oracle: callback exactly once per recipient accepted in THIS transaction, in order, with that recipient's own reply; Close returns after exactly those replies (a following NOOP is in step); without callback a refusal comes back from Close. In addition a SCRIPTED LMTP server that accepts recipients with 250, 251 or 252 (or refuses with 550): all recipient lists of <=3 over {250,251,252,550} x all final verdict vectors x {callback, none} x a second transaction.", maxTx)
 	var txs []string
 	enumStrings([]byte("rotp"), 3, func(s []byte) {
 		if len(s) > 0 {
@@ -246,5 +246,198 @@ func C18(tier string) int {
 			run.Sample("case", 5, c)
 		}
 	})
+	scases := c18ScriptCases(maxTx)
+	h.ParallelFor(len(scases), func(i int) {
+		c := scases[i]
+		f := evalC18Script(c)
+		run.Eval(true)
+		if f != nil {
+			run.Violate("c18-script", c, f, func() *h.Finding { return evalC18Script(c) })
+			run.Outcome("violation:" + f.Sig)
+		} else {
+			run.Outcome("scripted-ok")
+		}
+		if i%997 == 1 {
+			run.Sample("scripted-case", 3, c)
+		}
+	})
 	return run.Finish()
+}
+
+// ---- scripted LMTP server: recipients accepted with 250, 251 or 252 ---------------------------
+
+type C18ScriptCase struct {
+	Tx    []string `json:"tx"`    // per transaction, per recipient one letter: 0=250 1=251 2=252 (accepted) r=550 (refused at RCPT)
+	Final []string `json:"final"` // per transaction, per ACCEPTED recipient: o (250) or p (550) after the end of data
+	UseCB bool     `json:"use_cb"`
+}
+
+func evalC18Script(c C18ScriptCase) *h.Finding {
+	var f *h.Finding
+	desc := fmt.Sprintf("scripted LMTP server: recipients=%v final=%v callback=%t", c.Tx, c.Final, c.UseCB)
+	tx := -1
+	var accepted []string
+	inData := false
+	script := func(line string, n int) []byte {
+		if inData {
+			if line != "." {
+				return []byte{}
+			}
+			inData = false
+			var sb strings.Builder
+			for i, r := range accepted {
+				if c.Final[tx][i] == 'o' {
+					fmt.Fprintf(&sb, "250 2.1.5 <%s> delivered\r\n", r)
+				} else {
+					fmt.Fprintf(&sb, "550 5.2.2 <%s> mailbox full\r\n", r)
+				}
+			}
+			return []byte(sb.String())
+		}
+		up := strings.ToUpper(line)
+		switch {
+		case strings.HasPrefix(up, "LHLO"):
+			return []byte("250-fake.example\r\n250 PIPELINING\r\n")
+		case strings.HasPrefix(up, "MAIL"):
+			tx++
+			accepted = nil
+			return []byte("250 2.1.0 ok\r\n")
+		case strings.HasPrefix(up, "RCPT"):
+			addr := line[strings.IndexByte(line, '<')+1 : strings.IndexByte(line, '>')]
+			switch addr[0] {
+			case '0':
+				accepted = append(accepted, addr)
+				return []byte("250 2.1.5 ok\r\n")
+			case '1':
+				accepted = append(accepted, addr)
+				return []byte("251 2.1.5 user not local; will forward\r\n")
+			case '2':
+				accepted = append(accepted, addr)
+				return []byte("252 2.1.5 cannot verify, will try\r\n")
+			}
+			return []byte("550 5.1.1 no such user\r\n")
+		case strings.HasPrefix(up, "DATA"):
+			inData = true
+			return []byte("354 go ahead\r\n")
+		case strings.HasPrefix(up, "QUIT"):
+			return []byte("221 2.0.0 bye\r\n")
+		}
+		return []byte("250 2.0.0 ok\r\n")
+	}
+	leak, pan := h.Bubble(func() {
+		h.WithScriptedServer("220 fake.example LMTP\r\n", script, true, func(cs *h.CS) {
+			cl := cs.Client
+			for ti, rc := range c.Tx {
+				if err := cl.Mail("s@a.example", nil); err != nil {
+					f = h.F("c18s-mail", "%s: Mail: %v", desc, err)
+					return
+				}
+				var want []string
+				for ri := 0; ri < len(rc); ri++ {
+					addr := fmt.Sprintf("%ct%dr%d@x.example", rc[ri], ti, ri)
+					err := cl.Rcpt(addr, nil)
+					if rc[ri] == 'r' {
+						if err == nil {
+							f = h.F("c18s-rcpt", "%s: refused recipient reported accepted", desc)
+							return
+						}
+						continue
+					}
+					if err != nil {
+						f = h.F("c18s-accepted-rcpt-error", "%s: the server accepted %s with 25%c but Rcpt returned %v", desc, addr, rc[ri], err)
+						return
+					}
+					want = append(want, addr)
+				}
+				if len(want) == 0 {
+					cl.Reset()
+					continue
+				}
+				type got struct {
+					rcpt string
+					ok   bool
+				}
+				var calls []got
+				var w interface {
+					Write([]byte) (int, error)
+					Close() error
+				}
+				var err error
+				if c.UseCB {
+					w, err = cl.LMTPData(func(r string, st *smtp.SMTPError) { calls = append(calls, got{r, st == nil}) })
+				} else {
+					w, err = cl.Data()
+				}
+				if err != nil {
+					f = h.F("c18s-data", "%s: DATA: %v", desc, err)
+					return
+				}
+				w.Write([]byte("x\r\n"))
+				cerr := w.Close()
+				if c.UseCB {
+					if cerr != nil || len(calls) != len(want) {
+						f = h.F("c18s-callbacks", "%s: transaction %d: Close=%v, callback fired %d times for %d accepted recipients", desc, ti, cerr, len(calls), len(want))
+						return
+					}
+					for i, wnt := range want {
+						if calls[i].rcpt != wnt || calls[i].ok != (c.Final[ti][i] == 'o') {
+							f = h.F("c18s-callback-status", "%s: transaction %d: callback %d was (%s, ok=%t), want (%s, ok=%t)", desc, ti, i, calls[i].rcpt, calls[i].ok, wnt, c.Final[ti][i] == 'o')
+							return
+						}
+					}
+				} else if (cerr != nil) != strings.Contains(c.Final[ti], "p") {
+					f = h.F("c18s-close", "%s: transaction %d: Close returned %v", desc, ti, cerr)
+					return
+				}
+				if err := cl.Noop(); err != nil {
+					f = h.F("c18s-out-of-step", "%s: Noop after transaction %d: %v", desc, ti, err)
+					return
+				}
+			}
+		}, nil)
+	})
+	if f != nil {
+		return f
+	}
+	if pan != "" {
+		return h.F("c18-harness-panic", "%s: %s", desc, pan)
+	}
+	if leak != "" {
+		return h.F("c18-deadlock", "%s: the client waits for replies the server will never send: %.200s", desc, leak)
+	}
+	return nil
+}
+
+func init() { h.RegisterReplayer("c18-script", evalC18Script) }
+
+func c18ScriptCases(maxTx int) []C18ScriptCase {
+	var txs []struct{ rc, fin string }
+	enumStrings([]byte("012r"), 3, func(s []byte) {
+		if len(s) == 0 {
+			return
+		}
+		acc := 0
+		for _, ch := range s {
+			if ch != 'r' {
+				acc++
+			}
+		}
+		enumStrings([]byte("op"), acc, func(fin []byte) {
+			if len(fin) == acc {
+				txs = append(txs, struct{ rc, fin string }{string(s), string(fin)})
+			}
+		})
+	})
+	var out []C18ScriptCase
+	for _, a := range txs {
+		for _, cb := range []bool{true, false} {
+			out = append(out, C18ScriptCase{Tx: []string{a.rc}, Final: []string{a.fin}, UseCB: cb})
+			if maxTx >= 2 {
+				for _, b := range []struct{ rc, fin string }{{"01", "op"}, {"2r1", "po"}} {
+					out = append(out, C18ScriptCase{Tx: []string{a.rc, b.rc}, Final: []string{a.fin, b.fin}, UseCB: cb})
+				}
+			}
+		}
+	}
+	return out
 }
